@@ -165,9 +165,77 @@ def exposures(tr, market, phase, rng=None):
                 tr.counters["rule_exclusion"] += 1
                 if abs(got2["worst_possible_profit_on_win"] - w2) > TOL_SEL or abs(got2["worst_possible_profit_on_lose"] - l2) > TOL_SEL:
                     tr.violate("C16", "exclusion-not-as-removed", {}, views=views, excluded=tr.okey(ex), got=got2, expected=(w2, l2), tick=tr.tick)
+        # prospective order handled exactly as if it had been added to the book (selection and market figures)
+        if mb is not None and rng.random() < 0.4:
+            from flumine.order.trade import Trade
+            from flumine.order.ordertype import LimitOrder, MarketOnCloseOrder
+
+            active = [(r.selection_id, r.handicap) for r in mb.runners if r.status == "ACTIVE"] or list(by_sel)
+            sel = rng.choice(active + list(by_sel))
+            side = rng.choice(("BACK", "LAY"))
+            if rng.random() < 0.8:
+                ot = LimitOrder(rng.choice((1.5, 2.0, 3.5, 10.0, 40.0)), rng.choice((2.0, 5.0, 12.5)))
+            else:
+                ot = MarketOnCloseOrder(rng.choice((5.0, 20.0)))
+            new_order = Trade(market.market_id, sel[0], sel[1], st).create_order(side, ot)
+            ex = rng.choice(orders) if rng.random() < 0.5 else None
+            per2 = {}
+            for s2 in set(by_sel) | {sel}:
+                views2 = [exposure_view(o) for o in by_sel.get(s2, []) if o is not ex]
+                if s2 == sel:
+                    views2.append(exposure_view(new_order))
+                per2[s2] = O.selection_wpp(views2)
+            got = b.get_exposures(st, (market.market_id, sel[0], sel[1]), exclusion=ex, new_order=new_order)
+            tr.counters["rule_new-order"] += 1
+            w2, l2 = per2[sel]
+            if abs(got["worst_possible_profit_on_win"] - w2) > TOL_SEL or abs(got["worst_possible_profit_on_lose"] - l2) > TOL_SEL:
+                tr.violate("C16", "new-order-not-as-added", {"with_exclusion": ex is not None}, got=got, expected=(w2, l2), tick=tr.tick)
+            if mb.number_of_winners is not None:
+                expm = O.market_worst_case(per2, mb.number_of_winners, mb.number_of_active_runners)
+                gotm = b.market_exposure(st, mb, exclusion=ex, new_order=new_order)
+                # an order on a selection that is not active any more still counts as a runner that carries orders
+                if abs(gotm - expm) > TOL_SEL * max(1, len(per2)):
+                    tr.violate("C16", "market-exposure-with-new-order-differs", {"with_exclusion": ex is not None, "same_object": False}, got=gotm, expected=expm, per={str(k): v for k, v in per2.items()}, tick=tr.tick)
         if mb is not None and mb.number_of_winners is not None:
             exp = O.market_worst_case(per, mb.number_of_winners, mb.number_of_active_runners)
             got = b.market_exposure(st, mb)
             tr.counters["rule_market-exposure"] += 1
             if abs(got - exp) > TOL_SEL * max(1, len(per)):
                 tr.violate("C16", "market-exposure-differs", {"winners": mb.number_of_winners}, per_selection={str(k): v for k, v in per.items()}, got=got, expected=exp, active=mb.number_of_active_runners, tick=tr.tick)
+
+
+# ---- C01 end-to-end -------------------------------------------------------------------------------
+
+
+def exposure_bound(tr, market, phase):
+    """With the acknowledgement discipline respected, no force, constant limits and no price-reduction removals the
+    worst case on a selection never exceeds max_selection_exposure."""
+    if phase not in ("book", "closed"):
+        return
+    b = market.blotter
+    for st in tr.framework.strategies:
+        if st.name == "__audit__" or st.max_selection_exposure is None:
+            continue
+        if not getattr(st, "_vf_disciplined", False):
+            continue
+        by_sel = {}
+        for o in b._strategy_orders.get(st, []):
+            by_sel.setdefault((o.selection_id, o.handicap), []).append(o)
+        for sel, os_ in by_sel.items():
+            if (st.name, market.market_id, sel[0], sel[1]) in tr.undisciplined:
+                tr.counters["bound_skipped_undisciplined"] += 1
+                continue
+            views = [exposure_view(o) for o in os_]
+            w, l = O.selection_wpp(views)
+            tr.counters["rule_bound"] += 1
+            worst = max(0.0, -min(w, l))
+            if worst > st.max_selection_exposure + 0.011:
+                replaced = any(getattr(o, "_vf_replacement", False) for o in os_)
+                tr.violate("C01", "selection-loss-exceeds-limit", {"replaced": replaced, "phase": "settlement" if phase == "closed" else "update"}, views=views, worst=worst, limit=st.max_selection_exposure, tick=tr.tick, strategy=st.name)
+            if phase == "closed":
+                loss = -sum(o.profit for o in os_)
+                slack = 0.02 + sum(0.005 * max(0.0, (o.average_price_matched or 1.0) - 1.0) for o in os_ if o.order_type.ORDER_TYPE.name != "LIMIT" and o.side == "LAY")
+                tr.counters["rule_realised"] += 1
+                if loss > st.max_selection_exposure + slack:
+                    replaced = any(getattr(o, "_vf_replacement", False) for o in os_)
+                    tr.violate("C01", "realised-loss-exceeds-limit", {"replaced": replaced}, views=views, loss=loss, limit=st.max_selection_exposure, strategy=st.name)
